@@ -517,6 +517,45 @@ out:
     if (!vf_in_confirm) vf_outcome(idx);
 }
 
+/* ---- one alpha map shared by MANY owners.  The breadth-first search has three images; the refusal of chains depends on a per-map count of owners, so the
+ * count is driven through 255 / 256 / 257 / 511 / 512 / 513 directly: with n live images using A as their alpha map, set_alpha_map(A, B) must be refused
+ * (B is released by the caller's own unref, at once), and after everything is released the heap is back where it was. */
+static int many_cb_count;
+static void many_destroy_cb(pixman_image_t *img, void *data) { (void)img; (void)data; many_cb_count++; }
+static void many_owners_case(uint64_t idx, void *vctx)
+{
+    (void)vctx;
+    static const int NSs[7] = { 1, 255, 256, 257, 511, 512, 513 };
+    int n = NSs[idx % 7], kind = (int)(idx / 7);                   /* kind 0: bits owners, 1: solid-fill owners */
+    size_t heap0 = heap_now();
+    uint32_t pa = 0x80808080u, pb = 0x40404040u;
+    pixman_image_t *A = pixman_image_create_bits(PIXMAN_a8r8g8b8, 1, 1, &pa, 4), *B = pixman_image_create_bits(PIXMAN_a8r8g8b8, 1, 1, &pb, 4);
+    pixman_image_t **own = malloc(sizeof *own * (size_t)n);
+    pixman_color_t c = { 0x1000, 0x2000, 0x3000, 0x4000 };
+    for (int i = 0; i < n; i++) { own[i] = kind ? pixman_image_create_solid_fill(&c) : pixman_image_create_bits(PIXMAN_a8r8g8b8, 1, 1, NULL, 0); pixman_image_set_alpha_map(own[i], A, 0, 0); }
+    many_cb_count = 0; pixman_image_set_destroy_function(B, many_destroy_cb, NULL);
+    pixman_image_set_alpha_map(A, B, 0, 0);                        /* a chain: must be refused */
+    int ret = pixman_image_unref(B);
+    vf_count_libcalls((uint64_t)n * 2 + 6);
+    if (!ret || many_cb_count != 1)
+        vf_violation("c20-alpha-map-chain-accepted", "%d %s images use A as their alpha map; set_alpha_map(A, B) was not refused: the caller's unref(B) returned %d and B's destroy callback ran %d time(s)",
+                     n, kind ? "solid-fill" : "bits", ret, many_cb_count);
+    /* and the other way round: an image that HAS an alpha map cannot become one */
+    if (!vf_failed() && n >= 1) {
+        pixman_image_t *C = pixman_image_create_bits(PIXMAN_a8r8g8b8, 1, 1, &pb, 4);
+        many_cb_count = 0; pixman_image_set_destroy_function(own[0], many_destroy_cb, NULL);
+        pixman_image_set_alpha_map(C, own[0], 0, 0);
+        pixman_image_unref(C);
+    }
+    for (int i = 0; i < n; i++) pixman_image_unref(own[i]);
+    int reta = pixman_image_unref(A);
+    if (!vf_failed() && !reta) vf_violation("c20-destroyed-too-early-or-twice", "%d owners released, then unref(A) returned FALSE: something still holds the shared alpha map", n);
+    free(own);
+    vf_count_eval(1); vf_count_nontrivial(1);
+    if (!vf_failed() && !vf_asan_flag) { size_t heap1 = heap_now(); if (heap1 != heap0) vf_violation("c20-heap-not-released", "%d owners of one alpha map, everything released: %lld bytes of heap are still allocated", n, (long long)heap1 - (long long)heap0); }
+    if (!vf_in_confirm) vf_outcome(idx);
+}
+
 /* What the self-referencing image does on first use (finding #7, second half): _pixman_image_validate() follows
  * image->common.alpha_map without end.  Run under the watchdog (tail-call loop) and a SIGSEGV handler on an alternate
  * stack (stack overflow). */
@@ -577,6 +616,7 @@ int main(int argc, char **argv)
 
     vf_space_run("self-alpha-first-use", 2, self_alpha_use_case, NULL);
     vf_space_run("glyph-cache-at-capacity", 64, full_cache_case, NULL);
+    vf_space_run("one-alpha-map-many-owners", 14, many_owners_case, NULL);
 
     vf_bounds = th ? "3 images + 1 glyph cache; client references per image <= 2; at most 4 non-default properties (transform, filter params, clip, destroy function) in the pool at a time; search to the fixpoint"
                    : "3 images + 1 glyph cache; client references per image <= 2; at most 2 non-default properties (transform, filter params, clip, destroy function) in the pool at a time; search to the fixpoint";
